@@ -378,6 +378,27 @@ def session_change_only_into_offered(m: Model, r: Report, rid: str) -> None:
             "'Virtual ECU in unsupported session' assertion", loc=f.loc)
 
 
+def dddi_sources_accept_stored_form(m: Model, r: Report, rid: str) -> None:
+    """The source definitions of `primitive uds dddi` are tuples in the model and JSON arrays (lists) in META.json / run_meta: the validator that parses the
+    command-line text `a:b:c` hands both sequence forms through (finite-domain evaluation), otherwise the stored config cannot re-create the run."""
+    from sa import miniterp
+    f = m.require_function("gallia.commands.primitive.uds.dddi.parse_definitions")
+    pv, pn = f.params()[0], f.params()[1]
+    oracle = lambda call, env: int(miniterp.eval_expr(call.args[0], env, oracle), 0) if ast.unparse(call.func) in ("err_int", "auto_int") else NotImplemented
+    bad = []
+    for val, n, want in (("0x10:1:4", 3, (16, 1, 4)), ((16, 1, 4), 3, (16, 1, 4)), ([16, 1, 4], 3, (16, 1, 4)), ([16, 1], 2, (16, 1)), ([16, 1], 3, "raises"), ("1:2", 3, "raises")):
+        try:
+            ret, env = miniterp.run_function(f.node, {pv: val, pn: n}, oracle)
+            got = miniterp.eval_expr(ret.value, env, oracle) if ret is not None and ret.value is not None else None
+            got = tuple(got) if isinstance(got, (list, tuple)) else got
+        except miniterp.Raised:
+            got = "raises"
+        if got != want:
+            bad.append(f"{val!r} (expected length {n}) -> {got!r}")
+    r.check(not bad, rid, f"{f.qualname}#stored-form", f"{bad}: a definition is accepted as text `a:b:c`, as tuple and as the list the JSON dump turns the tuple into; "
+            "otherwise `script rerun` of a dddi run fails before the command is constructed", loc=f.loc)
+
+
 def sub_function_split_rule(m: Model, r: Report, rid: str) -> None:
     """utils.sub_function_split(b) == (b & 0x7F, bit 7 of b set) for every byte value, decided by evaluating its return expression for 0..255."""
     from sa import miniterp
